@@ -288,6 +288,79 @@ theorem readValueTop_ioeof (o : VOpts) (fuel : Nat) (r : Bytes) (n : Nat) (hf : 
       simp [addOff, hcv] at h
       exact absurd h.2 this
 
+/-- maximal munch: a number accepted by the value path cannot be extended by the next byte -/
+theorem value_number_stop (o : VOpts) (fuel d : Nat) (r : Bytes) (n : Nat) (h : consumeValue o fuel d r = (n, .ok))
+    (hnum : JNumber (r.take n)) : ∀ c t, r.drop n = c :: t → ¬ NumPrefix (r.take n ++ [c]) := by
+  obtain ⟨c0, t0, htk, hk⟩ := jnumber_head _ hnum
+  cases fuel with
+  | zero => simp [consumeValue] at h
+  | succ f =>
+    cases r with
+    | nil => simp at htk
+    | cons c r1 =>
+      have hc : c = c0 := by
+        cases n with
+        | zero => simp at htk
+        | succ m => simp only [List.take_succ_cons, List.cons.injEq] at htk; exact htk.1
+      subst hc
+      have hcn : consumeNumber (c :: r1) = (n, .ok) := by
+        simp only [consumeValue, hk] at h
+        have h' : valueNumber (c :: r1) = (n, .ok) := by simpa using h
+        unfold valueNumber at h'
+        simp only at h'
+        split at h'
+        · unfold consumeNumberD at h'
+          rcases hr : consumeNumberResumable (c :: r1) 0 stInit with ⟨n', st', e⟩
+          have hcn : consumeNumber (c :: r1) = (n', e) := by simp [consumeNumber, hr]
+          simp only [hr] at h'
+          split at h'
+          · split at h'
+            · rename_i he
+              have : e = .ok := by simpa using he
+              subst this
+              simp only [Prod.mk.injEq, and_true] at h'
+              subst h'; exact hcn
+            · simp at h'
+          · simp only [Prod.mk.injEq] at h'
+            obtain ⟨rfl, rfl⟩ := h'; exact hcn
+        · rename_i hs
+          simp only [Prod.mk.injEq, and_true] at h'
+          have hne : consumeSimpleNumber (c :: r1) ≠ 0 := by intro h0; simp [h0] at hs
+          have := simple_number_sound' (c :: r1) hne
+          rw [h'] at this; exact this
+      have hg := good_consumeNumber (c :: r1)
+      rw [hcn] at hg
+      obtain ⟨g1, g2, g3⟩ := hg
+      intro c' t' hd
+      rw [hd] at g3
+      rw [numPrefix_iff_live, run_append]
+      have g3' : δ (run .start ((c :: r1).take n)) c' = .dead := g3
+      simp [run, g3']
+
+/-- `readValueTop_ok` with the maximal-munch side condition -/
+theorem readValueTop_ok_max (o : VOpts) (fuel : Nat) (r : Bytes) (n : Nat) (h : readValueTop o fuel r = (n, .ok)) :
+    n ≤ r.length ∧ ∃ w v, JWs w ∧ JV o 0 v ∧ r.take n = w ++ v ∧
+      (JNumber v → ∀ c t, r.drop n = c :: t → ¬ NumPrefix (v ++ [c])) := by
+  unfold readValueTop at h
+  simp only at h
+  split at h
+  · simp at h
+  · rename_i c rest hdrop
+    split at h
+    · simp at h
+    · rcases hcv : consumeValue o fuel 1 (c :: rest) with ⟨k, e⟩
+      simp only [addOff, hcv, Prod.mk.injEq] at h
+      obtain ⟨rfl, rfl⟩ := h
+      obtain ⟨hk, hjv⟩ := (sound_all o fuel).1 0 (c :: rest) k (by omega) hcv
+      have hlen := len_of_drop _ _ _ _ hdrop
+      have hk' : k ≤ rest.length + 1 := by simpa using hk
+      refine ⟨by omega, r.take (consumeWhitespace r), (c :: rest).take k, ws_take r, hjv, ?_, ?_⟩
+      · rw [List.take_add, hdrop]
+      · intro hnum c' t' hd
+        have hd' : (c :: rest).drop k = c' :: t' := by
+          rw [← hdrop, List.drop_drop]; exact hd
+        exact value_number_stop o fuel 1 (c :: rest) k hcv hnum c' t' hd'
+
 theorem streamLoop_sound (o : VOpts) (vfuel : Nat) (fuel : Nat) : ∀ (r : Bytes) (cnt base cnt' off : Nat),
     3 * r.length + 1 ≤ vfuel → streamLoop o vfuel fuel r cnt base = (cnt', off, .ioEOF) →
     JStream (G o) maxNestingDepth (nameKey o) r := by
@@ -307,11 +380,11 @@ theorem streamLoop_sound (o : VOpts) (vfuel : Nat) (fuel : Nat) : ∀ (r : Bytes
       subst he
       split at h
       · simp at h
-      · obtain ⟨hn, w, v, hw, hjv, htake⟩ := readValueTop_ok o vfuel r n hr
+      · obtain ⟨hn, w, v, hw, hjv, htake, hmax⟩ := readValueTop_ok_max o vfuel r n hr
         have := ih (r.drop n) _ _ _ _ (by simp; omega) h
         have hsplit : r = w ++ v ++ r.drop n := by rw [← htake, List.take_append_drop]
         rw [hsplit]
-        exact JStream.next w v _ hw hjv this
+        exact JStream.next w v _ hw hjv hmax this
 
 /-- a ReadValue loop that ends with io.EOF has read a stream of the grammar -/
 theorem stream_sound' (o : VOpts) (b : Bytes) (cnt off : Nat) (h : stream o b = (cnt, off, .ioEOF)) :
